@@ -4,6 +4,7 @@ import (
 	"fmt"
 	"os"
 	"strconv"
+	"strings"
 	"time"
 
 	"0chain.net/smartcontract/stakepool/spenum"
@@ -28,10 +29,12 @@ const late = TU + 1 // a time step that carries every allocation of the scenario
 // roots returns the named root scripts.
 func (s *scen) roots() map[string][]chainsim.Action {
 	ab := append(s.rootA(), s.newAllocRoot("B", "c1", []int{1, 2, 3}, 4*ZCN), s.readPoolLock("c0", 3e6, 0), s.readPoolLock("c1", 1e6, 0))
-	f := append(s.rootBase(), s.addAssigner("scowner", 0, 4, 7, 0), s.addAssigner("scowner", 1, 3.5, 3.5, 0))
+	f := append(s.rootBase(), s.addAssigner("scowner", 0, 4, 7, 0), s.addAssigner("scowner", 1, 3.5, 3.5, 0), s.addAssigner("scowner", 2, 4, 14.5, 0))
+	// F2: the markers with nonces 5 and 3 of assigner a2 already redeemed, out of nonce order
+	f2 := append(append([]chainsim.Action{}, f...), s.freeAlloc("c1", "c1", 2, 3.5, 5, "", []int{1, 2, 3}, 0), s.freeAlloc("c1", "c1", 2, 3.5, 3, "", []int{1, 2, 3}, 0))
 	awc := append(s.rootAW(), s.genChallenge(0))
 	awk := append(s.rootAW(), s.kill("scowner", "b0"))
-	return map[string][]chainsim.Action{"AWP": s.rootAWP(), "TD": s.rootTD(), "base": s.rootBase(), "A": s.rootA(), "AW": s.rootAW(), "AWC": awc, "AWK": awk, "AB": ab, "F": f}
+	return map[string][]chainsim.Action{"AWP": s.rootAWP(), "TD": s.rootTD(), "base": s.rootBase(), "A": s.rootA(), "AW": s.rootAW(), "AWC": awc, "AWK": awk, "AB": ab, "F": f, "F2": f2}
 }
 
 // fullAlphabet is the union of every action used by some check (the probe command picks from it).
@@ -205,7 +208,8 @@ func (s *scen) readAlphabet(wide bool) []chainsim.Action {
 	return a
 }
 
-// freeAlphabet: free-storage markers of two assigners (a0: individual 4, total 7; a1: 3.5/3.5).
+// freeAlphabet: free-storage markers of three assigners (a0: individual 4, total 7; a1: 3.5/3.5;
+// a2: 4/14.5 with nonces 5, 3, 8 (4) redeemable in any order, each repeatable as a replay).
 func (s *scen) freeAlphabet(wide bool) []chainsim.Action {
 	bl := []int{1, 2, 3}
 	a := []chainsim.Action{
@@ -219,8 +223,13 @@ func (s *scen) freeAlphabet(wide bool) []chainsim.Action {
 		s.freeAlloc("c1", "c1", 1, 3.5, 1, "a0", bl, 2),
 		s.addAssigner("scowner", 1, 3.5, 7, 0),
 		s.addAssigner("c1", 0, 50, 70, 2),
+		// assigner a2 (individual 4, total 14.5): valid markers whose nonces arrive out of order
+		s.freeAlloc("c1", "c1", 2, 3.5, 5, "", bl, 0),
+		s.freeAlloc("c1", "c1", 2, 3.5, 3, "", bl, 0),
+		s.freeAlloc("c1", "c1", 2, 3.5, 8, "", bl, 0),
 	}
 	if wide {
+		a = append(a, s.freeAlloc("c1", "c1", 2, 3.5, 4, "", bl, 0))
 		a = append(a,
 			s.freeAlloc("c3", "c3", 1, 3.25, 2, "", bl, 0),
 			s.cancel("dyn:c1", "c1", 0, 0),
@@ -250,6 +259,22 @@ func (s *scen) lateFailing() []chainsim.Action {
 }
 
 func (s *scen) explore(run *ev.Run, acts []chainsim.Action, roots [][]chainsim.Action, dq, dt int, mons ...chainsim.Monitor) {
+	// which markers a root script ("rootN" in paths) has redeemed: known from the script itself
+	s.rootRedeemed = func(rootName string) map[string]bool {
+		i, _ := strconv.Atoi(strings.TrimPrefix(rootName, "root"))
+		if run.Thorough() && len(roots) > 1 && os.Getenv("VERIF_SHARD") != "" {
+			i, _ = strconv.Atoi(os.Getenv("VERIF_STAGE"))
+		}
+		out := map[string]bool{}
+		if i < len(roots) {
+			for _, a := range roots[i] {
+				if mk, ok := s.freeMarkers[a.Name]; ok {
+					out[mk] = true
+				}
+			}
+		}
+		return out
+	}
 	mons = append([]chainsim.Monitor{s.harnessMonitor, s.tagMonitor}, mons...)
 	run.Assumptions = append(run.Assumptions,
 		"scenario S: 4 blobbers, 2 validators, delegate c2, registered/staked/allocated through real signed transactions; storage time_unit 20s, max_challenge_completion_rounds 3, block reward trigger_period 10, validators_per_challenge 2, hard forks electra+demeter active from round 1",
@@ -371,8 +396,8 @@ func c15(run *ev.Run, variant string) {
 func c24(run *ev.Run, variant string) {
 	s := newScen(0.1)
 	r := s.roots()
-	run.Rule = "BFS over sequences of free-storage markers of 2 assigners (valid, replayed nonce, over individual limit, cumulative over total limit, forged, signed by the other assigner, submitted by a non-recipient); oracle on every grant: submitter == recipient, signature verifies under the registered assigner key, nonce unused, amount <= individual limit, redeemed total <= total limit and raised by exactly the grant, exactly one allocation owned by the recipient; assigner totals and the owner wallet change only through grants"
-	s.explore(run, s.tracked(s.freeAlphabet(run.Thorough())), pick(run, r, "F"), 4, 5, s.freeMonitor)
+	run.Rule = "BFS over sequences of free-storage markers of 3 assigners (valid, replayed nonce, nonces redeemed out of order (5, 3, 8) and then replayed, over individual limit, cumulative over total limit, forged, signed by the other assigner, submitted by a non-recipient); oracle on every grant: submitter == recipient, signature verifies under the registered assigner key, nonce unused, amount <= individual limit, redeemed total <= total limit and raised by exactly the grant, exactly one allocation owned by the recipient; assigner totals and the owner wallet change only through grants"
+	s.explore(run, s.tracked(s.freeAlphabet(run.Thorough())), pick(run, r, "F", "F2"), 3, 4, s.freeMonitor)
 }
 
 // c09: the liabilities oracle on every transition of the explorations above; one part per
@@ -417,8 +442,8 @@ func c04(run *ev.Run, variant string) {
 	s := newScen(0.1)
 	r := s.roots()
 	mon.FreeStorageDebitOK = s.freeStorageDebitOK
-	run.Rule = "storage contract, free storage: BFS over sequences of free-storage markers of 2 assigners (valid, replayed, over-limit, forged, wrong recipient) and assigner registrations; oracle per transition: an account that loses tokens is the sender (<= value+fee), the called contract, the source of a validly signed transfer, or the configured storage owner wallet under a free_allocation_request whose marker is validly signed by a registered assigner, names the submitter, and whose (assigner, nonce) was not accepted earlier along the path (the path record is kept by the harness from the owner wallet's debits, not read from the contract)"
-	s.explore(run, s.tracked(s.freeAlphabet(run.Thorough())), pick(run, r, "F"), 4, 5, mon.DebitMonitor(s.w))
+	run.Rule = "storage contract, free storage: BFS over sequences of free-storage markers of 3 assigners (valid, replayed, redeemed out of nonce order and replayed, over-limit, forged, wrong recipient) and assigner registrations; oracle per transition: an account that loses tokens is the sender (<= value+fee), the called contract, the source of a validly signed transfer, or the configured storage owner wallet under a free_allocation_request whose marker is validly signed by a registered assigner, names the submitter, and whose (assigner, nonce) was not accepted earlier along the path (the path record is kept by the harness from the owner wallet's debits, not read from the contract)"
+	s.explore(run, s.tracked(s.freeAlphabet(run.Thorough())), pick(run, r, "F", "F2"), 3, 4, mon.DebitMonitor(s.w))
 }
 
 func c02(run *ev.Run, variant string) {
